@@ -47,14 +47,11 @@ def main(argv):
         broken.append({"kind": "forbidden-vernacular", "hits": forb[:20]})
     if broken:
         os.environ["VERIF_SCALE"] = str(float(os.environ.get("VERIF_SCALE", "1")) * 3)   # search harder for a failing input
-    # HiGHS 1.15.1's presolve has been observed to report FEASIBLE models infeasible (DESIGN 10.4: witnesses from MinErrorFlow and
-    # kFlowDecompCycles); every property here is stated relative to a solver that answers correctly, so the library's documented
-    # class-level default SolverWrapper.presolve is set to "off" for the models the harness builds (VERIF_PRESOLVE overrides).
-    try:
-        import flowpaths.utils.solverwrapper as _sw
-        _sw.SolverWrapper.presolve = os.environ.get("VERIF_PRESOLVE", "off")
-    except Exception:
-        pass
+    # HiGHS 1.15.1 has been observed to report FEASIBLE models infeasible -- with presolve on some instances, with presolve off
+    # on others (DESIGN 10.4: witnesses from MinErrorFlow, kFlowDecompCycles, MinFlowDecompCycles).  Every property here is stated
+    # relative to a solver that answers correctly, so the harness gives HiGHS a second opinion: a model that comes back infeasible
+    # is solved once more with the other presolve setting, and counts as infeasible only if both runs say so.
+    common.install_second_opinion()
     try:
         if os.path.exists(common.FPMODEL):
             eng.run(ctx)
